@@ -73,7 +73,7 @@ def r2_comprehension_scope(ctx, F):
                     re.search(r"bind::(expr|expr_lvalue)$", h.qpath)]
     outer_visit = False
     for c in f.calls:
-        if c.bb in f.cleanup or not re.search(r"starlark_lsp::bind::\w+$", c.name) or len(c.args) < 2 \
+        if c.bb in f.cleanup or not re.search(r"starlark_lsp::bind::[\w:]+$", c.name) or len(c.args) < 2 \
                 or re.search(r"bind::expr_lvalue$", c.name):
             continue
         a0 = {o for o in origins(f, c.args[0], pass_calls=None)}
